@@ -257,6 +257,28 @@ class Machine(object):
         if c is None:
             c = Cell(None, name); s.allocs[k] = c
         return c
+    MAXALLOC = 8
+    def alloc_n(s, th, key, name, g):
+        """heap allocation at the current site: [(case guard, cell)].  One cell per (thread, site, occurrence); the occurrence count
+        (how often this thread has executed the site so far) lives in the executing state's own environment, so it is a constant
+        along a path and only becomes a case split where paths with different histories were merged.  Distinct live allocations of
+        one site therefore never share a cell (a second Arc::new at the same site used to overwrite the first one's content while
+        a clone of the first was still registered as a waker)."""
+        st = s.st
+        if st is None or th is None: return [(TRUE, s.alloc(th, key, name))]
+        cnt = st.get('__alloc__', key)
+        if cnt is None: cnt = ZERO
+        cs = cases(cnt)
+        if cs is None: raise EncodeError('allocation count is not a choice among constants')
+        out = []
+        for v, cg in cs:
+            gg = And(g, cg)
+            if gg is FALSE: continue
+            if v >= s.MAXALLOC:
+                s.oblige('bound', 'allocation site %s executed more than %d times by one thread' % (name, s.MAXALLOC), gg); continue
+            out.append((cg if len(cs) > 1 else TRUE, s.alloc(th, tuple(key) + ((('#', v),) if v else ()), name + ('#%d' % v if v else ''))))
+        st.set('__alloc__', key, Ite(g, Add(cnt, ONE), cnt) if g is not TRUE else Add(cnt, ONE))
+        return out
     def fn_of(s, cp): return s.prog.fns[cp[-1][0]]
     # ---------------------------------------------------------------- memory
     def getpath(s, v, path):
